@@ -499,8 +499,23 @@ func callsFor(c *vh.Ctx, p *pkig.PKI, perTarget int) []call {
 				if c.Intn(3) == 0 {
 					s.Entries = append(s.Entries, [2]int{i, i})
 				}
-				if c.Intn(4) == 0 {
+				switch c.Intn(4) {
+				case 0:
 					s.Blocked = append(s.Blocked, c.Intn(len(p.Certs)))
+				case 1:
+					// several subject+key records: the other certificates with this certificate's subject first
+					// (a re-keyed subject: same subject, other key), unrelated ones, then possibly this certificate
+					for j := range p.Certs {
+						if j != i && p.Subj[j] == p.Subj[i] {
+							s.Blocked = append(s.Blocked, j)
+						}
+					}
+					for k := c.Intn(3); k > 0; k-- {
+						s.Blocked = append(s.Blocked, c.Intn(len(p.Certs)))
+					}
+					if c.Intn(3) != 0 {
+						s.Blocked = append(s.Blocked, i)
+					}
 				}
 				cl.OneCRL = s
 			}
